@@ -849,3 +849,265 @@ def registry(rnd, nseq=60):
         b.add("listPeers")
         out.append(b.tag("reg").build())
     return out
+
+
+def multi(*subs):
+    return step("multi", multi=list(subs))
+
+
+def collision_racy(rnd, n):
+    """C07/C01: two stimuli on different connections issued without waiting in between."""
+    out = []
+    for i in range(n):
+        lid = rnd.choice(["10.0.0.1", "10.0.0.9"])
+        b = Sb("colr-%d" % i, [peer()], routerID=lid)
+        b.start()
+        co, ci = b.dial_ok(), b.connect()
+        p = b.P("p1")
+        o = open_msg(p["remoteAS"], 90, ip4("10.0.0.2"))
+        kind = rnd.choice(["open-open", "ka-open", "eof-open", "open-ka", "close-open", "notif-open", "ka-ka"])
+        x, y = (co, ci) if rnd.random() < 0.5 else (ci, co)
+        if kind == "open-open":
+            b.steps.append(multi(step("send", conn=x, b=o), step("send", conn=y, b=o)))
+        elif kind == "ka-open":
+            b.open(x)
+            b.steps.append(multi(step("send", conn=x, b=keepalive()), step("send", conn=y, b=o)))
+        elif kind == "eof-open":
+            b.open(x)
+            b.steps.append(multi(step("rclose", conn=x), step("send", conn=y, b=o)))
+        elif kind == "notif-open":
+            b.open(x)
+            b.steps.append(multi(step("send", conn=x, b=notification(4, 0)), step("send", conn=y, b=o)))
+        elif kind == "open-ka":
+            b.open(x)
+            b.steps.append(multi(step("send", conn=y, b=o + keepalive()), step("send", conn=x, b=keepalive())))
+        elif kind == "ka-ka":
+            b.open(x)
+            b.steps.append(multi(step("send", conn=y, b=o), step("send", conn=x, b=keepalive()),
+                                 step("send", conn=y, b=keepalive())))
+        else:
+            b.open(x)
+            b.steps.append(multi(step("close"), step("send", conn=y, b=o)))
+        b.ka(co).ka(ci).adv(1)
+        out.append(b.tag("collision", "racy").build())
+    return out
+
+
+def notif_values(rnd, n):
+    out = []
+    for i in range(n):
+        st, d = rnd.choice(STATES), rnd.choice(DIRS)
+        code, sub = rnd.choice(list(range(0, 9)) + [255]), rnd.choice([0, 1, 255])
+        dl = rnd.choice([0, 1, 2, 300])
+        b = Sb("nval-%d-%s-%s-%d-%d-%d" % (i, st, d, code, sub, dl))
+        b.start()
+        c = b.to_state(st, direction=d)
+        b.notif(c, code, sub, [rnd.randrange(256) for _ in range(dl)])
+        b.adv(rnd.choice([1, 59, 61]))
+        c2 = b.connect()
+        b.open(c2).ka(c2).adv(1)
+        out.append(b.tag("nval").build())
+    return out
+
+
+def _cut(s, rnd, sid, how):
+    """truncate script s at a random point after start-up and stop the server / peer"""
+    n = rnd.randint(min(2, len(s["steps"])), len(s["steps"]))
+    steps = [st for st in s["steps"][:n] if st["op"] != "close"]
+    t = dict(s, id=sid, steps=list(steps))
+    if how == "close":
+        t["steps"].append(step("close"))
+    elif how == "delete":
+        t["steps"].append(step("deletePeer", peer=s["peers"][0]["name"]))
+        t["steps"].append(step("advance", d=sec(7)))
+    else:
+        # stop racing with the last stimulus
+        last = t["steps"].pop() if len(t["steps"]) > 2 and t["steps"][-1]["op"] in ("send", "rclose", "connect") else None
+        subs = ([last] if last else []) + [step("close")]
+        if rnd.random() < 0.5:
+            subs.reverse()
+        t["steps"].append(multi(*subs))
+    t["tags"] = sorted(set(s.get("tags", [])) | {"stop"})
+    return t
+
+
+def stop_everywhere(rnd, n):
+    pool = collision() + damping() + writers() + sample_list(pacing(), rnd, 40) + reaction_table()
+    out = []
+    for i in range(n):
+        s = rnd.choice(pool)
+        out.append(_cut(s, rnd, "stopx-%d-%s" % (i, s["id"]), rnd.choice(["close", "delete", "race"])))
+    return out
+
+
+def sample_list(lst, rnd, n):
+    lst = list(lst)
+    rnd.shuffle(lst)
+    return lst[:n]
+
+
+def damping_random(rnd, n):
+    out = []
+    for i in range(n):
+        passive = rnd.random() < 0.5
+        b = Sb("dampr-%d" % i, [peer(passive=passive, handlerReplies={"1": {"code": rnd.choice([3, 6]), "sub": 1, "data": []}})])
+        b.start()
+        delay = 0
+        for _ in range(rnd.randint(1, 5)):
+            kind = rnd.choice(["rx", "rxcease", "hdr", "eof", "hold", "handler", "badopen", "fsm"])
+            c = b.connect()
+            if kind == "badopen":
+                b.open(c, hold=1)
+            elif kind == "fsm":
+                b.upd(c)
+            else:
+                b.open(c, hold=3 if kind == "hold" else 90).ka(c)
+                if kind == "rx":
+                    b.notif(c, rnd.choice([1, 2, 3, 4, 5, 7]), 0)
+                elif kind == "rxcease":
+                    b.notif(c, 6, 0)
+                elif kind == "hdr":
+                    b.send(c, [0] * 19)
+                elif kind == "eof":
+                    b.rclose(c)
+                elif kind == "hold":
+                    b.adv(3)
+                else:
+                    b.upd(c)
+            gap = rnd.choice([0, 59, 60, 61, 119, 120, 121, 239, 240, 241, 299, 300, 301, 360, 599, 600, 601])
+            b.advu(sec(gap) + rnd.choice([-1, 0, 1]) if gap else 0)
+            cx = b.connect()          # probe: accepted or refused?
+            b.adv(rnd.choice([0, 1, 30]))
+        b.adv(301)
+        c = b.connect()
+        b.open(c).ka(c).adv(1)
+        out.append(b.tag("damp", "random").build())
+    return out
+
+
+def writers_random(rnd, n):
+    out = []
+    for i in range(n):
+        h = rnd.choice([0, 3, 9, 90])
+        d = rnd.choice(DIRS)
+        p = peer(hold=h, estWrites=[[1] * rnd.choice([0, 1, 50])] * rnd.randint(0, 2),
+                 handlerWrites={"1": [[2, 2]]} if rnd.random() < 0.5 else None)
+        b = Sb("wrr-%d" % i, [p])
+        b.start()
+        c = b.establish(direction=d, hold=h)
+        nsess = 1
+        for _ in range(rnd.randint(3, 12)):
+            a = rnd.choice(["write", "write", "writes", "ka", "upd", "adv", "advka", "end", "stale"])
+            if a == "write":
+                b.write("p1", nsess, [rnd.randrange(256)] * rnd.choice([0, 1, 4, 300, 4077]))
+            elif a == "writes":
+                b.steps.append(multi(*[step("write", peer="p1", w=nsess, b=[j, j]) for j in range(rnd.randint(2, 4))]))
+            elif a == "ka":
+                b.ka(c)
+            elif a == "upd":
+                b.upd(c)
+            elif a == "adv" and h:
+                b.advu(sec(h) // 3 - rnd.choice([0, 1]))
+            elif a == "advka" and h:
+                b.advu(sec(h) // 3).ka(c)
+            elif a == "stale" and nsess > 1:
+                b.write("p1", rnd.randint(1, nsess - 1), [9])
+            elif a == "end":
+                rnd.choice([lambda: b.notif(c, 6, 0), lambda: b.rclose(c), lambda: b.rreset(c)])()
+                b.write("p1", nsess, [8])
+                b.adv(6)
+                c = b.connect()
+                b.open(c, hold=h).ka(c)
+                nsess += 1
+        out.append(b.tag("writer", "random").build())
+    return out
+
+
+def segmentation_long(rnd, n):
+    out = []
+    for i in range(n):
+        b = Sb("segl-%d" % i, [peer()])
+        b.start()
+        c = b.establish(direction=rnd.choice(DIRS))
+        stream = []
+        for k in range(200):
+            if rnd.random() < 0.2:
+                stream += keepalive()
+            else:
+                ln = rnd.choice([0, 1, 2, 4, 19, 50, 300])
+                stream += update([(k >> 8) & 255, k & 255][:ln] + [k % 251] * max(0, ln - 2))
+        sizes = []
+        left = len(stream)
+        while left > 0:
+            m = min(left, rnd.choice([1, 3, 19, 64, 512, 1460]))
+            sizes.append(m)
+            left -= m
+        b.send(c, stream, sizes).adv(1)
+        out.append(b.tag("seg", "long").build())
+    return out
+
+
+def mutate(rnd, data):
+    data = list(data)
+    for _ in range(rnd.randint(1, 4)):
+        if not data:
+            data = [rnd.randrange(256)]
+        k = rnd.choice(["flip", "len", "drop", "dup", "ins", "trunc", "rand"])
+        i = rnd.randrange(len(data))
+        if k == "flip":
+            data[i] ^= 1 << rnd.randrange(8)
+        elif k == "len" and len(data) >= 19:
+            j = rnd.choice([16, 17])
+            data[j] = rnd.choice([0, 1, 16, 18, 19, 255, data[j] ^ 1])
+        elif k == "drop":
+            del data[i]
+        elif k == "dup":
+            data[i:i] = data[i:i + rnd.randint(1, 30)]
+        elif k == "ins":
+            data[i:i] = [rnd.randrange(256) for _ in range(rnd.randint(1, 40))]
+        elif k == "trunc":
+            data = data[:i]
+        else:
+            data[i] = rnd.randrange(256)
+    return data
+
+
+def fuzz(rnd, n):
+    """C05: arbitrary / mutated bytes at every state, with the epilogue: another peer still establishes, Close returns."""
+    out = []
+    valid = lambda p: [open_msg(p["remoteAS"], 90, ip4("10.0.0.2")), keepalive(), update([0, 0, 0, 0]),
+                       update([0, 0, 0, 7, 0x40, 1, 1, 0, 0x40, 2, 0]), notification(6, 0),
+                       open_msg(p["remoteAS"], 0, ip4("10.0.0.2")), frame(5, []), frame(3, [1]),
+                       frame(1, [4, 0, 1]), frame(2, [255] * 4077)]
+    states = ("accepted",) + STATES
+    for i in range(n):
+        ps = [peer("p1", "10.0.0.2", hold=rnd.choice([0, 3, 90])), peer("p2", "10.0.0.3", remoteAS=65003)]
+        b = Sb("fuzz-%d" % i, ps)
+        b.start()
+        st, d = rnd.choice(states), rnd.choice(DIRS)
+        c = b.to_state(st if st != "accepted" else "openSent", direction=d, hold=rnd.choice([0, 3, 90]))
+        msgs = valid(ps[0])
+        stream = []
+        for _ in range(rnd.randint(1, 5)):
+            m = rnd.choice(msgs)
+            stream += mutate(rnd, m) if rnd.random() < 0.7 else m
+        if rnd.random() < 0.1:
+            stream = [rnd.randrange(256) for _ in range(rnd.choice([1, 18, 19, 20, 64, 5000]))]
+        sizes = []
+        left = len(stream)
+        while left > 0:
+            m = min(left, rnd.choice([1, 19, 64, 4096]))
+            sizes.append(m)
+            left -= m
+        b.send(c, stream, sizes)
+        if rnd.random() < 0.5:
+            b.rclose(c)
+        b.adv(rnd.choice([0, 1, 10]))
+        # epilogue
+        c2 = b.connect("p2")
+        b.open(c2, "p2", rid="10.0.0.3").ka(c2).upd(c2)
+        if rnd.random() < 0.3:
+            b.add("getPeer", peer="p1").add("listPeers")
+        b.close()
+        out.append(b.tag("fuzz", st).build())
+    return out
